@@ -32,6 +32,24 @@ pub fn generate_hash(seed: u64, n: usize, _tier: &str, emit: &mut dyn FnMut(Stri
     }
 }
 
+/// `ok`, or the first node (preorder) whose reported size is not its number of nodes
+fn size_check<A: Clone + std::fmt::Debug + PartialEq>(v: &std::sync::Arc<storage_layout_extractor::vm::value::SV<A>>) -> String
+where
+    storage_layout_extractor::vm::value::SV<A>: Sized,
+{
+    fn count<A: Clone + std::fmt::Debug + PartialEq>(v: &std::sync::Arc<storage_layout_extractor::vm::value::SV<A>>, bad: &mut Option<String>) -> usize {
+        let kids = v.children();
+        let n = 1 + kids.iter().map(|c| count(c, bad)).sum::<usize>();
+        if bad.is_none() && v.size() != n {
+            *bad = Some(format!("bad:reports-{}-has-{}", v.size(), n));
+        }
+        n
+    }
+    let mut bad = None;
+    count(v, &mut bad);
+    bad.unwrap_or_else(|| "ok".into())
+}
+
 pub fn eval_lift(payload: &str) -> String {
     let mut ids = sv::Ids::default();
     let Some(v) = sv::parse(payload, &mut ids, None) else { return "err unparsable".into() };
@@ -44,7 +62,11 @@ pub fn eval_lift(payload: &str) -> String {
         let mut p = p.borrow_mut();
         let passes = p.get_or_insert_with(LiftingPasses::default);
         match passes.run(v, &state) {
-            Ok(out) => sv::to_text(&*out, &mut ids),
+            Ok(out) => {
+                // C18: after the passes every node still reports its true number of nodes
+                let sz = size_check(&out);
+                format!("{} ## sz={sz}", sv::to_text(&*out, &mut ids))
+            }
             Err(_) => "err lift".into(),
         }
     })
@@ -95,6 +117,18 @@ pub fn generate_lift(seed: u64, n: usize, _tier: &str, emit: &mut dyn FnMut(Stri
         emit(format!("(storageWrite 0 | (add 0 | (sha3 0 | (concat 0 | {})) (callValue 1 |)) (caller 1 |))", k(slot)));
         emit(format!("(storageWrite 0 | (add 0 | {} {}) (caller 1 |))", mapkey(slot), k("0x3")));
         emit(format!("(log 0 | {} {})", mapkey(slot), k("0x1")));
+    }
+    // constants that are the Keccak image of a small slot number: the one pass that turns a leaf into
+    // a tree (sizes must follow, C18), as key, inside key arithmetic, and as a stored value
+    {
+        use storage_layout_extractor::{tc::lift::proxy_slots::ProxySlots, vm::value::known::KnownWord};
+        for i in [0usize, 1, 3, 9999, 10000] {
+            let h = format!("0x{:x}", ProxySlots::sha3_known_words(&[KnownWord::from(i)]).value_le());
+            emit(format!("(sLoad 0 | {} (unwrittenStorageValue 0 | {}))", k(&h), k(&h)));
+            emit(format!("(storageWrite 0 | (add 0 | {} (callValue 1 |)) (caller 1 |))", k(&h)));
+            emit(format!("(storageWrite 0 | {} {})", k("0x7"), k(&h)));
+            emit(format!("(add 0 | (add 0 | {} {}) (and 0 | {} {}))", k(&h), k("0x1"), k(&h), k("0xff")));
+        }
     }
     // harvested from executed programs
     let mut count = 0;
